@@ -3,6 +3,7 @@ CONSTANTS
   Procs = {1, 2, 3}
   Iter = 2
   Nest = 2
+  ExchangeAcquire = FALSE
   FreeAfterRelease = TRUE
 INVARIANT Safe
 INVARIANT MutualExclusion
